@@ -28,10 +28,11 @@ CHECKS["C18"] = {
     "assumptions": ["only the last segment of a list is infinite (documented precondition)", "magnitudes are small non-negative integers so float32 sums are exact",
                     "degenerate periods (start>=end) are checked for symmetry and no-panic only"],
     "jobs": [
-        enum_job("periods-exh", "./verifh/c18", "TestPeriodsExhaustive|TestCompareExhaustive"),
+        enum_job("periods-exh", "./verifh/c18", "TestPeriodsExhaustive|TestCompareExhaustive|TestCompareBoundaryPairs"),
         rapid_job("periods-rand", "./verifh/c18", "TestPeriodsRandom|TestCompareRandom", 100000, 500000),
         rapid_job("segments", "./verifh/c18", "TestSegmentOps|TestSegmentSum", 30000, 150000),
         rapid_job("modes", "./verifh/c18", "TestModeOps|TestModeSum", 30000, 150000),
+        rapid_job("sum-overlap", "./verifh/c18", "TestSumOverlappingCalls", 150, 600, shards={Q: 2, T: 8}),
     ],
 }
 
@@ -46,6 +47,7 @@ CHECKS["C05"] = {
     "jobs": [
         rapid_job("tuples", "./verifh/c05", "TestMaskedWrite", 20000, 120000),
         rapid_job("sequences", "./verifh/c05", "TestWriteSequence|TestOptionMasksAreNotKept", 6000, 40000),
+        rapid_job("disjoint-writers", "./verifh/c05", "TestDisjointMaskWriters", 300, 2000, shards={Q: 2, T: 8}),
         {"name": "fuzz-maskedwrite", "pkg": "./verifh/c05", "run": "^$", "rapid": False, "fuzz": "FuzzMaskedWrite", "fuzztime": {T: 240}, "tiers": (T,), "shards": {T: 1}},
     ],
 }
@@ -58,7 +60,7 @@ CHECKS["C06"] = {
              "populated inside and outside the mask, or a corrupted mask whose corrupted field is populated; distinct by (type, mask, message)"),
     "assumptions": ["presence of empty intermediate messages on a mask path is not compared", "for invalid masks only validation, no-panic and non-mutation are asserted"],
     "jobs": [
-        rapid_job("valid", "./verifh/c06", "TestReadMask|TestValidateAcceptsValid", 6000, 40000),
+        rapid_job("valid", "./verifh/c06", "TestReadMask|TestValidateAcceptsValid|TestSharedFilter", 6000, 40000),
         rapid_job("pull", "./verifh/c06", "TestPullProjectionsSideBySide", 2500, 15000),
         rapid_job("corrupt", "./verifh/c06", "TestCorruptMask", 6000, 40000),
         {"name": "fuzz-readmask", "pkg": "./verifh/c06", "run": "^$", "rapid": False, "fuzz": "FuzzReadMask", "fuzztime": {T: 150}, "tiers": (T,), "shards": {T: 1}},
@@ -77,7 +79,7 @@ CHECKS["C16"] = {
     "jobs": [
         rapid_job("default", "./verifh/c16", "TestDefaultEqual", 30000, 200000),
         rapid_job("tolerance", "./verifh/c16", "TestTolerance|TestDurationWithinP|TestToleranceExtremes", 30000, 200000),
-        rapid_job("resource", "./verifh/c16", "TestValueEquivalence|TestCollectionEquivalence|TestEquivalenceWithFilteredView", 3000, 20000),
+        rapid_job("resource", "./verifh/c16", "TestValueEquivalence|TestCollectionEquivalence|TestEquivalenceWithFilteredView|TestLaggingSubscriberEquivalence", 3000, 20000),
     ],
 }
 
@@ -153,6 +155,7 @@ CHECKS["C08"] = {
     "jobs": [
         enum_job("tables", "./verifh/c08", "TestIncludeTables", shards={Q: 8, T: 16}, timeout={Q: 600, T: 3000}),
         rapid_job("random", "./verifh/c08", "TestIncludeRandom", 3000, 20000),
+        rapid_job("tolerance-times", "./verifh/c08", "TestIncludeWithToleranceAndTimes", 4000, 30000),
         rapid_job("booking", "./verifh/c08", "TestBookingIntersects", 2000, 10000),
     ],
 }
@@ -174,6 +177,7 @@ CHECKS["C09"] = {
         rapid_job("lossy-api", "./verifh/c09", "TestLossyCollectionPull|TestLossyValuePull|TestLossySubscribersSideBySide", 2000, 15000, timeout={Q: 240, T: 1200}),
         rapid_job("lockstep", "./verifh/c09", "TestBackpressureLockstep", 500, 3000, shards_t=4),
         enum_job("send-timeout", "./verifh/c09", "TestBackpressureSendTimeout"),
+        rapid_job("consumer-reads", "./verifh/c09", "TestBackpressuredConsumerThatReads", 250, 1500, shards={Q: 4, T: 8}, timeout={Q: 600, T: 2400}),
         enum_job("slow-consumer", "./verifh/c09", "TestBackpressureSlowCollectionConsumer"),
         rapid_job("many-ids", "./verifh/c09", "TestLossyManyIDs", 12, 60, shards_t=2, timeout={Q: 240, T: 1200}),
         rapid_job("churn", "./verifh/c09", "TestLossyChurn", 40, 150, shards={Q: 3, T: 8}, timeout={Q: 400, T: 2400}),
@@ -189,6 +193,7 @@ CHECKS["C02"] = {
     "assumptions": ["code inside sync.RWMutex critical sections is atomic", "only the named windows are forced; other schedules are explored statistically"],
     "jobs": [
         rapid_job("forced", "./verifh/c02", "TestForcedInterleavings", 60000, 200000),
+        enum_job("delete-retries", "./verifh/c02", "TestDeleteRetryExhaustive"),
         rapid_job("stress", "./verifh/c02", "TestStressLinearizable", 20000, 80000),
         rapid_job("counters", "./verifh/c02", "TestStressCounters", 1500, 5000, shards_t=8),
     ],
@@ -206,6 +211,7 @@ CHECKS["C03"] = {
         rapid_job("forced", "./verifh/c03", "TestForcedSubscribe", 4000, 30000, timeout={Q: 150, T: 1200}),
         rapid_job("delete-window", "./verifh/c03", "TestForcedDeleteWindow", 2500, 15000, shards_t=4, timeout={Q: 150, T: 1200}),
         rapid_job("stress", "./verifh/c03", "TestStressSubscribe", 1500, 10000, timeout={Q: 150, T: 1200}),
+        rapid_job("burst", "./verifh/c03", "TestBurstConvergence", 150, 1200, shards={Q: 2, T: 8}, timeout={Q: 300, T: 1200}),
     ],
 }
 
@@ -338,7 +344,7 @@ CHECKS["C13"] = {
                     "for cancelled calls only the outcome class and a prefix relation on received messages are compared"],
     "jobs": [
         rapid_job("differential", "./verifh/c13", "TestWrapMatchesGRPC", 1500, 10000, timeout={Q: 400, T: 2400}),
-        rapid_job("isolation", "./verifh/c13", "TestWrapIsolationAndShape|TestWrapCancelWhileServerSends", 300, 2000, shards_t=2),
+        rapid_job("isolation", "./verifh/c13", "TestWrapIsolationAndShape|TestWrapCancelWhileServerSends|TestMethodNamesMatchGRPC", 300, 2000, shards_t=2),
         enum_job("held-handler", "./verifh/c13", "TestClientNotHeldByHandler"),
     ],
 }
@@ -408,6 +414,7 @@ CHECKS["C11"] = {
     "jobs": [
         rapid_job("core", "./verifh/c11", "TestRaceValue|TestRaceCollection|TestRaceBus", 500, 2500, race=True, shards_t=8, postprocess=_c11_postprocess, timeout={"quick": 500, "thorough": 2400}),
         rapid_job("stack", "./verifh/c11", "TestRaceRouterAndWrap|TestRaceWrappedClient|TestRaceGroup", 300, 1500, race=True, shards_t=8, postprocess=_c11_postprocess, timeout={"quick": 500, "thorough": 2400}),
+        rapid_job("slow-callbacks", "./verifh/c11", "TestRaceSlowCallbacks", 4, 12, race=True, shards={"quick": 2, "thorough": 8}, postprocess=_c11_postprocess, timeout={"quick": 500, "thorough": 2400}),
         rapid_job("models", "./verifh/c11", "TestRaceModels", 400, 2000, race=True, shards_t=8, postprocess=_c11_postprocess, timeout={"quick": 500, "thorough": 2400}),
     ],
 }
